@@ -10,26 +10,33 @@
  *              └── zone zx = { }         can be unregistered (`drop`): "the object no longer exists"
  *     zone g (global)
  *
- * Security objects of events are the zones themselves (apilistener.cpp:1344-1349 accepts a Zone as secobj).
+ * Security objects of events are the zones themselves (apilistener.cpp:1344-1349 accepts a Zone as secobj) and five ApiUser objects
+ * that carry the SAME names as the zones but live in other zones (sec M S A X G: "master" in zone agent, "sat"/"agent" in zone master,
+ * "zx"/"g" in zone sat): what a peer's zone may see depends on (type, name), not on the name.
  * The real ApiListener is started (ApiListener::Start opens api/log/current and registers the timers), events
  * go through ApiListener::RelayMessage (relay queue joined), peers are attached/detached with real
  * JsonRpcConnection objects (never started; the outgoing queue is read after a barrier on the strand),
- * ApiListener::ReplayLog is called on a connection of the peer, ApiTimerHandler runs through the timer pump,
+ * every replay is ApiListener::SyncClient on a connection of the peer (SetSyncing, certificate request + config sync — dropped from the
+ * observed queue —, ReplayLog, syncing cleared, exceptions swallowed as in production), ApiTimerHandler runs through the timer pump,
  * incoming messages go through JsonRpcConnection::MessageHandler.
  *
  * Lines (times in µs, file names in s; text after ` | ` is the observation):
  *   C <n> <now> <paFirst> <durA> .. <durF> | <satRev> <topRev>   fresh case: empty api/log, positions 0, log opened at <now>;
  *                                                   satRev/topRev: the zone's second endpoint (D / F) is visited first (std::set of pointers);
  *                                                   paFirst=1: peer A's name sorts before ours (A is master when connected)
- *   relay <now> <id> <sec> [<reclen>] | <frame hex|-> <livemask> <newfile|-> <P>   sec: - m s a x g ; livemask bit p = peer p;
+ *   relay <now> <id> <sec> [<reclen>] | <frame hex|-> <livemask> <newfile|-> <P>   sec: - m s a x g M S A X G ; livemask bit p = peer p;
  *                                                   reclen: pad the event so that the persisted record has (about) that many bytes; long runs of
  *                                                   the padding byte are printed as ~<count>~ inside the hex;
  *                                                   newfile: name of the file a rotation inside PersistMessage created
- *   conn <p> | <P>      disc <p> | <P>                          p: A B C D E F   (conn also sets `syncing`, as SyncClient does)
- *   replay <now> <p>         | <vis> <out> <P>                  vis: 5 bits m s a x g as seen by p's zone; out: M<id>@<ts>,L<v>,...
- *   probe <file> <k> <hex|-> <now> <p> | <vis> <out> <P>        bytes of <file> from offset k on replaced by <hex>, ReplayLog, file restored
- *                                                   (<k> may be `?r`: r mod (size+1), printed resolved)
+ *   conn <p> | <P>      disc <p> | <P>                          p: A B C D E F   (conn = AddClient + `syncing` set: SyncClient is under way)
+ *   attach <p> | <P>                                             AddClient only: the synchronous part of NewClientHandlerInternal, SyncClient still queued
+ *   replay <now> <p>         | <vis> <out> <syncing> <P>        SyncClient; vis: 10 bits (Zone, ApiUser) x (master sat agent zx g) as seen by p's zone;
+ *                                                   out: M<id>@<ts>,L<v>,...; syncing: the endpoint's flag afterwards
+ *   probe <file> <k> <hex|-> <now> <p> | <vis> <out> <syncing> <garb> <P>   bytes of <file> from offset k on replaced by <hex>, SyncClient, file restored
+ *                                                   (<k> may be `?r`: r mod (size+1), or `@j`: the j-th frame boundary; printed resolved);
+ *                                                   garb: what the damaged frames decode to (DescribeDamage; oracle for the known-finding classifiers only)
  *   cutall <now> <p>                                 expands to `probe f k - now p` for every file f and every offset k
+ *   flipall <now> <p> <stride> <phase>               expands to probes with single bytes replaced in place (the changed suffix as hex)
  *   rotate <now> | <newfile|-> <P>   (CloseLogFile, RotateLogFile, OpenLogFile as PersistMessage does at 50 000)
  *   setcount <n> | <P>        (m_LogMessageCount := n, to reach the rotation inside PersistMessage)
  *   drop | <P>                (unregister zone zx)
@@ -38,7 +45,7 @@
  *   recv <p> <ts> | <accepted> <P>                  (a message with "ts" from p through MessageHandler)
  *   setbytes <file> <k> <hex|-> | <P>               (permanent damage; file: cur or a name)
  *   ls | <names|-> <cur|->                           (which files exist; their CONTENT is compared as decoded records, see dump)
- *   dump <now> | <vis> <out> <P>                    (every record on disk the production reader yields: ReplayLog to A from position 0)
+ *   dump <now> | <vis> <out> <syncing> <P>                    (every record on disk the production reader yields: ReplayLog to A from position 0)
  *   stop <now> | <newfile|-> <P>          (ApiListener::Stop via Deactivate; the process ends)
  *   crash <k> | <P>           (the process ends without Stop; only the first k bytes of current survive, -1: all)
  *   start <now> | <satRev> <topRev> <P>   (new process on the same directory; state attributes restored as the state file would)
@@ -60,6 +67,7 @@
 #include "remote/zone.hpp"
 #include "remote/jsonrpcconnection.hpp"
 #include "remote/pkiutility.hpp"
+#include "remote/apiuser.hpp"
 #include <filesystem>
 #include <fstream>
 #include <future>
@@ -76,12 +84,14 @@ namespace vh {
 typedef void MhFn(const Dictionary::Ptr&);
 typedef void RlFn(const JsonRpcConnection::Ptr&);
 typedef void VoidFn();
+typedef void ScFn(const JsonRpcConnection::Ptr&, const Endpoint::Ptr&, bool);
 VH_ROB_MEMBER(MhTag, JsonRpcConnection, MhFn, MessageHandler)
 VH_ROB_MEMBER(StrandTag, JsonRpcConnection, boost::asio::io_context::strand, m_IoStrand)
 VH_ROB_MEMBER(OutQTag, JsonRpcConnection, std::vector<String>, m_OutgoingMessagesQueue)
 VH_ROB_MEMBER(RelayQTag, ApiListener, WorkQueue, m_RelayQueue)
 VH_ROB_MEMBER(SyncQTag, ApiListener, WorkQueue, m_SyncQueue)
 VH_ROB_MEMBER(ReplayTag, ApiListener, RlFn, ReplayLog)
+VH_ROB_MEMBER(SyncClientTag, ApiListener, ScFn, SyncClient)
 VH_ROB_MEMBER(OpenTag, ApiListener, VoidFn, OpenLogFile)
 VH_ROB_MEMBER(CloseTag, ApiListener, VoidFn, CloseLogFile)
 VH_ROB_MEMBER(RotateTag, ApiListener, VoidFn, RotateLogFile)
@@ -200,9 +210,42 @@ struct Gen {
 };
 
 static const int kDurs[] = { -1, 0, 5, 60, 3600, 86400, 86400 };
-static const char *kSecs[] = { "-", "m", "s", "a", "x", "g" };
+static const char *kSecs[] = { "-", "m", "s", "a", "x", "g", "M", "S", "A", "X", "G" };
+static const int kNSecs = 11;
 static const char *kPeers[] = { "A", "B", "C", "D", "E", "F" };
 static const int kGP = 6;
+
+/* well-framed records whose content is damaged: what a corrupted file can hold behind its intact part */
+static std::string Ns(const std::string& s) { return std::to_string(s.size()) + ":" + s + ","; }
+static const int kJunkKinds = 22;
+/* kinds 0-5, 12, 16-21: no timestamp beyond the later records; 6, 7, 14: timestamp of a wrong type; 8-11, 13, 15: timestamp ahead (`now`) */
+static std::string JunkRecord(int kind, long long now)
+{
+	char t[64], huge[64];
+	if (kind >= 16) { now = T0 + 1; kind = (const int[]){ 9, 10, 11, 13, 15, 8 }[kind - 16]; if (kind == 8) kind = 99; }
+	snprintf(t, sizeof t, "%lld.%06lld", now / 1000000, now % 1000000);
+	snprintf(huge, sizeof huge, "%lld.5", now / 1000000 + 1000000000LL);
+	std::string msg = "\"message\":\"{\\\"jsonrpc\\\":\\\"2.0\\\",\\\"method\\\":\\\"verif::Event\\\",\\\"params\\\":{\\\"id\\\":9999},\\\"ts\\\":1}\"";
+	switch (kind) {
+		case 0: return Ns("{\"timestamp\":12#");
+		case 1: return Ns("17");
+		case 2: return Ns("[1,2]");
+		case 3: return Ns("\"str\"");
+		case 4: return Ns("true");
+		case 5: return Ns("{}");
+		case 6: return Ns("{\"timestamp\":\"abc\"," + msg + "}");
+		case 7: return Ns("{\"timestamp\":[1]," + msg + "}");
+		case 8: return Ns(std::string("{\"timestamp\":") + huge + "," + msg + "}");
+		case 9: return Ns(std::string("{\"timestamp\":") + t + "," + msg + ",\"secobj\":5}");
+		case 10: return Ns(std::string("{\"timestamp\":") + t + "," + msg + ",\"secobj\":{\"type\":5,\"name\":[1]}}");
+		case 11: return Ns(std::string("{\"timestamp\":") + t + ",\"message\":17}");
+		case 12: return Ns("{\"timestamp\":1," + msg + "}");
+		case 13: return Ns(std::string("{\"timestamp\":") + t + "," + msg + ",\"secobj\":{\"type\":\"Zone\"}}");
+		case 14: return Ns("{\"timestamp\":true," + msg + "}");
+		case 99: return Ns(std::string("{\"timestamp\":") + t + "," + msg + ",\"secobj\":{\"type\":\"Zone\",\"name\":{}}}");
+		default: return Ns(std::string("{\"timestamp\":") + t + "," + msg + ",\"secobj\":{\"type\":\"Zone\",\"name\":\"sat\"}}") + Ns("null");
+	}
+}
 
 static void GenRandomCase(Gen& g, int len)
 {
@@ -211,7 +254,7 @@ static void GenRandomCase(Gen& g, int len)
 	bool conn[kGP] = { false, false, false, false, false, false };
 	bool running = true, dropped = false;
 	long long rp[kGP] = { 0, 0, 0, 0, 0, 0 };      /* the remote position each peer's accepted messages imply (pure bookkeeping of what was sent) */
-	auto sec = [&]() { const char *x = kSecs[r.below(6)]; return (dropped && x[0] == 'x') ? "s" : x; };
+	auto sec = [&]() { const char *x = kSecs[r.below(kNSecs)]; return (dropped && x[0] == 'x') ? "s" : x; };
 	auto peer = [&]() { return (int)r.below(kGP); };
 	for (int i = 0; i < len; i++) {
 		g.Tick();
@@ -220,7 +263,8 @@ static void GenRandomCase(Gen& g, int len)
 		if (k < 40) g.Relay(sec());
 		else if (k < 50) { int p = peer(); if (!conn[p]) { g.Emit(std::string("conn ") + kPeers[p]); conn[p] = true; }
 			g.Emit("replay " + g.Now() + " " + kPeers[p]); }
-		else if (k < 56) { int p = peer(); if (!conn[p]) { g.Emit(std::string("conn ") + kPeers[p]); conn[p] = true; } }
+		else if (k < 55) { int p = peer(); if (!conn[p]) { g.Emit(std::string("conn ") + kPeers[p]); conn[p] = true; } }
+		else if (k < 56) { int p = peer(); if (!conn[p]) { g.Emit(std::string("attach ") + kPeers[p]); conn[p] = true; } }
 		else if (k < 64) { int p = peer(); if (conn[p]) { g.Emit(std::string("disc ") + kPeers[p]); conn[p] = false; } }
 		else if (k < 71) { g.Emit("rotate " + g.Now()); g.Emit("ls"); }
 		else if (k < 78) { g.Emit("timer " + g.Now()); g.Emit("ls"); }
@@ -247,6 +291,10 @@ static void GenRandomCase(Gen& g, int len)
 			int n = (int)r.below(12);
 			for (int j = 0; j < n; j++) junk += (char)r.below(256);
 			g.Emit("setbytes cur ?" + std::to_string(r.below(100000)) + " " + Hex(junk));
+		}
+		else if (r.below(2)) {
+			g.Emit("probe " + std::string(r.below(2) ? "cur" : "#" + std::to_string(r.below(3))) + " @" + std::to_string(r.below(8)) + " " +
+				Hex(JunkRecord((int)r.below(kJunkKinds), g.now)) + " " + g.Now() + " " + kPeers[peer()]);
 		}
 		else {
 			std::string junk;
@@ -377,6 +425,74 @@ static void GenLargeCase(Gen& g, long long reclen)
 	g.Tick(); g.Emit("replay " + g.Now() + " E");
 }
 
+/* objects of different TYPES that share a name but not the zone (Zone "agent" and ApiUser "agent" …): whether the peer's zone may
+ * see the object of a record is decided per (type, name) — both orders, every peer */
+static void GenTypeNameCase(Gen& g, int variant)
+{
+	static const char *pairs[][2] = { { "a", "A" }, { "m", "M" }, { "s", "S" }, { "x", "X" }, { "g", "G" } };
+	g.Header(variant & 1, 86400, 86400, 86400, 86400, 86400, 86400);
+	for (int round = 0; round < 2; round++) {
+		for (auto& pr : pairs) {
+			bool flip = ((variant >> 1) + round) & 1;
+			g.Tick(); g.Relay(pr[flip ? 1 : 0]);
+			g.Tick(); g.Relay(pr[flip ? 0 : 1]);
+			g.Tick(); g.Relay(pr[flip ? 1 : 0]);
+		}
+		if (round == 0) { g.now += 1500000; g.Emit("rotate " + g.Now()); }
+	}
+	for (int p = 0; p < kGP; p++) {
+		g.Tick(); g.Emit(std::string("conn ") + kPeers[p]);
+		g.Tick(); g.Emit("replay " + g.Now() + " " + kPeers[p]);
+	}
+}
+
+/* the window of NewClientHandlerInternal: Endpoint::AddClient first, SyncClient later on the thread pool; an event in between */
+static void GenWindowCase(Gen& g, int p, const char *sec)
+{
+	g.Header(0, 86400, 86400, 86400, 86400, 86400, 86400);
+	g.Tick(); g.Relay(sec);
+	g.Tick(); g.Relay(sec);
+	g.Tick(); g.Emit(std::string("attach ") + kPeers[p]);
+	g.Tick(); g.Relay(sec);
+	g.Tick(); g.Emit("replay " + g.Now() + " " + kPeers[p]);
+	g.Tick(); g.Relay(sec);
+}
+
+/* three files; behind every frame boundary of each of them every kind of well-framed damaged record */
+static void GenJunkCase(Gen& g, const char *peer, int perFile)
+{
+	Rng& r = g.rng;
+	g.Header((int)r.below(2), 86400, 86400, 86400, 86400, 86400, 86400);
+	for (int f = 0; f < 3; f++) {
+		for (int i = 0; i < perFile; i++) { g.Tick(); g.Relay(kSecs[r.below(6)]); }
+		if (f < 2) { g.now += 1500000; g.Emit("rotate " + g.Now()); }
+	}
+	g.Emit("ls");
+	g.Emit(std::string("conn ") + peer);
+	g.Tick();
+	for (const char *f : { "#0", "#1", "cur" })
+		for (int j = 0; j <= perFile; j++)
+			for (int kind = 0; kind < kJunkKinds; kind++)
+				g.Emit(std::string("probe ") + f + " @" + std::to_string(j) + " " + Hex(JunkRecord(kind, g.now)) + " " + g.Now() + " " + peer);
+	g.Tick();
+	g.Emit("replay " + g.Now() + " " + peer);
+}
+
+/* three files, single bytes replaced in place */
+static void GenFlipCase(Gen& g, const char *peer, int stride, int phase)
+{
+	Rng& r = g.rng;
+	g.Header((int)r.below(2), 86400, 86400, 86400, 86400, 86400, 86400);
+	for (int f = 0; f < 3; f++) {
+		for (int i = 0; i < 2; i++) { g.Tick(); g.Relay(kSecs[r.below(6)]); }
+		if (f < 2) { g.now += 1500000; g.Emit("rotate " + g.Now()); }
+	}
+	g.Emit("ls");
+	g.Emit(std::string("conn ") + peer);
+	g.Tick();
+	g.Emit("flipall " + g.Now() + " " + peer + " " + std::to_string(stride) + " " + std::to_string(phase));
+}
+
 static void GenAll(uint64_t seed, bool thorough, std::vector<std::string>& out)
 {
 	Rng rng(seed * 0x9e3779b97f4a7c15ULL + 12);
@@ -391,6 +507,11 @@ static void GenAll(uint64_t seed, bool thorough, std::vector<std::string>& out)
 		for (const char *sec : { "s", "a", "g" }) { GenSiblingCase(g, 1, 3, sec, v++); GenSiblingCase(g, 3, 1, sec, v++); }
 		for (const char *sec : { "-", "m", "s" }) { GenSiblingCase(g, 4, 5, sec, v++); GenSiblingCase(g, 5, 4, sec, v++); }
 	}
+	for (int v = 0; v < 4; v++) GenTypeNameCase(g, v);
+	GenWindowCase(g, 0, "-"); GenWindowCase(g, 1, "s"); GenWindowCase(g, 4, "m");
+	GenJunkCase(g, "A", 2);
+	GenJunkCase(g, "B", 1);
+	GenFlipCase(g, "A", thorough ? 1 : 3, (int)(seed % 3));
 	for (long long len : { 1048575LL, 1048576LL, 1048577LL, 2097152LL }) GenLargeCase(g, len);
 	if (thorough) { GenLargeCase(g, 5242880LL); GenLargeCase(g, 1048574LL); GenLargeCase(g, 3000000LL); }
 	GenCutCase(g, 3, "A");
@@ -411,6 +532,11 @@ static Endpoint::Ptr l_Ep[kNP];
 static JsonRpcConnection::Ptr l_Conn[kNP];      /* attached client (null = disconnected) */
 static JsonRpcConnection::Ptr l_In[kNP];        /* connection object incoming messages are handed to */
 static Zone::Ptr l_ZTop, l_ZMaster, l_ZSat, l_ZAgent, l_ZX, l_ZG;
+/* security objects of ANOTHER type that carry the names of the zones but live elsewhere (the usual agent set-up: Zone, Endpoint and
+ * Host all named like the agent): ApiUser "master" in zone agent, "sat" and "agent" in zone master, "zx" and "g" in zone sat */
+static ConfigObject::Ptr l_User[5];
+static const char *kUserNames[] = { "master", "sat", "agent", "zx", "g" };
+static const char *kUserZones[] = { "agent", "master", "master", "sat", "sat" };
 static bool l_ZxDropped = false;
 static int l_PaFirst = 0, l_Dur[kNP] = { 86400, 86400, 86400, 86400, 86400, 86400 };
 static std::atomic<int> l_Noop{0};
@@ -562,6 +688,14 @@ static void BootNode(const std::string& work, const std::string& dir, bool resum
 	std::vector<Zone::Ptr> zones = { l_ZTop, l_ZMaster, l_ZSat, l_ZAgent, l_ZG };
 	for (auto& z : zones) static_pointer_cast<ConfigObject>(z)->OnAllConfigLoaded();
 	for (auto& e : eps) static_pointer_cast<ConfigObject>(e)->OnAllConfigLoaded();
+	for (int i = 0; i < 5; i++) {
+		ApiUser::Ptr u = new ApiUser();
+		u->SetName(kUserNames[i]);
+		u->SetZoneName(kUserZones[i]);
+		u->Register();
+		static_pointer_cast<ConfigObject>(u)->OnAllConfigLoaded();
+		l_User[i] = u;
+	}
 	ApplyIdentity();
 	if (resume) {
 		l_Listener->SetLogMessageTimestamp(Sec(lastTs));
@@ -601,14 +735,19 @@ static std::string DescribeOut(const std::vector<String>& q)
 	for (const String& s : q) {
 		std::string item;
 		try {
-			Dictionary::Ptr m = JsonDecode(s);
+			Value mv = JsonDecode(s);
+			if (!mv.IsObjectType<Dictionary>()) throw std::invalid_argument("no message");
+			Dictionary::Ptr m = mv;
 			String method = m->Get("method");
-			if (method == "log::SetLogPosition") {
-				Dictionary::Ptr p = m->Get("params");
+			Value pv = m->Get("params");
+			Dictionary::Ptr p = pv.IsObjectType<Dictionary>() ? Dictionary::Ptr(pv) : Dictionary::Ptr();
+			if (method == "log::SetLogPosition" && p) {
 				item = "L" + std::to_string(Us(p->Get("log_position")));
-			} else if (method == "verif::Event") {
-				Dictionary::Ptr p = m->Get("params");
+			} else if (method == "verif::Event" && p) {
 				item = "M" + std::to_string((long long)(double)p->Get("id")) + "@" + std::to_string(Us(m->Get("ts")));
+			} else if (method == "config::Update" || method == "config::UpdateObject" || method == "config::DeleteObject" ||
+				method == "pki::RequestCertificate") {
+				continue;   /* SyncClient's certificate request and config sync in front of the replay: not the replay log's business */
 			} else {
 				item = "O";
 			}
@@ -687,13 +826,19 @@ static std::string FileTok(const std::string& path)
 	return n == "current" ? "cur" : n;
 }
 
-static Zone::Ptr SecZone(const std::string& sec)
+static ConfigObject::Ptr SecObj(const std::string& sec)
 {
 	if (sec == "m") return l_ZMaster;
 	if (sec == "s") return l_ZSat;
 	if (sec == "a") return l_ZAgent;
 	if (sec == "x") return l_ZX;
 	if (sec == "g") return l_ZG;
+	if (sec == "M") return l_User[0];
+	if (sec == "S") return l_User[1];
+	if (sec == "A") return l_User[2];
+	if (sec == "X") return l_User[3];
+	if (sec == "G") return l_User[4];
+	if (sec != "-") Die("bad security object " + sec);
 	return nullptr;
 }
 
@@ -747,11 +892,90 @@ static std::string VisBits(int p)
 {
 	Zone::Ptr tz = l_Ep[p]->GetZone();
 	std::string r;
-	for (const char *n : { "master", "sat", "agent", "zx", "g" }) {
-		ConfigObject::Ptr o = ConfigObject::GetObject("Zone", n);
-		r += (o && tz && tz->CanAccessObject(o)) ? "1" : "0";
+	for (const char *type : { "Zone", "ApiUser" }) {
+		for (const char *n : { "master", "sat", "agent", "zx", "g" }) {
+			ConfigObject::Ptr o = ConfigObject::GetObject(type, n);
+			r += (o && tz && tz->CanAccessObject(o)) ? "1" : "0";
+		}
 	}
 	return r;
+}
+
+/* where the netstring frames of a file end (own, minimal parser: only to CHOOSE offsets and to describe damage) */
+static std::vector<size_t> FrameEnds(const std::string& data)
+{
+	std::vector<size_t> ends;
+	size_t i = 0;
+	while (i < data.size()) {
+		size_t j = i, len = 0;
+		while (j < data.size() && data[j] >= '0' && data[j] <= '9' && j - i < 10) { len = len * 10 + (size_t)(data[j] - '0'); j++; }
+		if (j == i || j >= data.size() || data[j] != ':') break;
+		size_t e = j + 1 + len;
+		if (e >= data.size() || data[e] != ',') break;
+		ends.push_back(e + 1);
+		i = e + 1;
+	}
+	return ends;
+}
+
+/* offset token: a number, `?r` = r mod (size+1), `@j` = the j-th frame boundary (0 = start of file; j mod number of boundaries) */
+static size_t ResolveOffset(const std::string& tok, const std::string& data)
+{
+	size_t k;
+	if (tok[0] == '?') k = (size_t)(atoll(tok.c_str() + 1) % (long long)(data.size() + 1));
+	else if (tok[0] == '@') {
+		std::vector<size_t> b = { 0 };
+		for (size_t e : FrameEnds(data)) b.push_back(e);
+		k = b[(size_t)atoll(tok.c_str() + 1) % b.size()];
+	} else k = (size_t)atoll(tok.c_str());
+	return std::min(k, data.size());
+}
+
+/* Oracle for the known-finding classifiers only: what the frames of a damaged file from the first frame that reaches beyond
+ * offset k on decode to, by the production JsonDecode.  Per frame (at most 6): i = not JSON, n = JSON but no dictionary,
+ * d<µs> = dictionary with a numeric timestamp, e = dictionary without timestamp, t = dictionary whose timestamp is no number;
+ * suffix s: "secobj" is no dictionary / its type or name is no string, m: "message" is no string.  f = framing ends here. */
+static std::string DescribeDamage(const std::string& data, size_t k)
+{
+	std::string r;
+	size_t start = 0;
+	int n = 0;
+	for (size_t e : FrameEnds(data)) {
+		size_t a = start;
+		start = e;
+		if (e <= k) continue;
+		if (n++ >= 6) return r;
+		size_t colon = data.find(':', a);
+		std::string payload = data.substr(colon + 1, e - 1 - (colon + 1));
+		std::string item;
+		try {
+			Value v = JsonDecode(payload);
+			if (!v.IsObjectType<Dictionary>()) item = "n";
+			else {
+				Dictionary::Ptr d = v;
+				Value ts = d->Get("timestamp");
+				if (ts.IsEmpty()) item = "e";
+				else if (ts.IsNumber()) {
+					double x = ts;
+					item = "d" + std::to_string(std::fabs(x) < 9e12 ? Us(x) : (x > 0 ? 9000000000000000000LL : -9000000000000000000LL));
+				} else item = "t";
+				Value so = d->Get("secobj");
+				if (!so.IsEmpty()) {
+					if (!so.IsObjectType<Dictionary>()) item += "s";
+					else {
+						Dictionary::Ptr sd = so;
+						if (!sd->Get("type").IsString() || !sd->Get("name").IsString()) item += "s";
+					}
+				}
+				if (!d->Get("message").IsString()) item += "m";
+			}
+		} catch (const std::exception&) {
+			item = "i";
+		}
+		r += (r.empty() ? "" : ",") + item;
+	}
+	if (start < data.size() && n < 6) r += (r.empty() ? "" : ",") + std::string("f");
+	return r.empty() ? "-" : r;
 }
 
 static std::string DoReplay(int p, long long now)
@@ -761,8 +985,11 @@ static std::string DoReplay(int p, long long now)
 	Sync();
 	JsonRpcConnection::Ptr c = l_Conn[p] ? l_Conn[p] : MkConn(p);
 	Drain(c);
-	(l->*get(ReplayTag()))(c);
+	/* the production entry point: what NewClientHandlerInternal queues after Endpoint::AddClient — SetSyncing(true), certificate
+	 * request and config sync, ReplayLog, syncing cleared (also when ReplayLog throws) */
+	(l->*get(SyncClientTag()))(c, l_Ep[p], true);
 	std::string out = DescribeOut(Drain(c));
+	out += l_Ep[p]->GetSyncing() ? " 1" : " 0";
 	l_PrevCur = (long long)ReadFile(LogDir() + "/current").size();
 	return out;
 }
@@ -783,7 +1010,7 @@ static void RunOp(const std::vector<std::string>& w, const std::string& line)
 		SetNow(Sec(atoll(w[1].c_str())));
 		for (int p = 0; p < kNP; p++) if (l_Conn[p]) Drain(l_Conn[p]);
 		auto before = RotatedNames();
-		Zone::Ptr sec = SecZone(w[3]);
+		ConfigObject::Ptr sec = SecObj(w[3]);
 		if (w[3] == "x" && l_ZxDropped) Die("relay for a dropped object");
 		Dictionary::Ptr params = new Dictionary({ { "id", atoi(w[2].c_str()) } });
 		Dictionary::Ptr msg = new Dictionary({ { "jsonrpc", "2.0" }, { "method", "verif::Event" }, { "params", params } });
@@ -793,7 +1020,7 @@ static void RunOp(const std::vector<std::string>& w, const std::string& line)
 			Dictionary::Ptr probe = new Dictionary({ { "jsonrpc", "2.0" }, { "method", "verif::Event" },
 				{ "params", new Dictionary({ { "id", atoi(w[2].c_str()) }, { "pad", "" } }) }, { "ts", Sec(atoll(w[1].c_str())) } });
 			Dictionary::Ptr rec = new Dictionary({ { "timestamp", Sec(atoll(w[1].c_str())) }, { "message", JsonEncode(probe) } });
-			if (sec) rec->Set("secobj", new Dictionary({ { "type", "Zone" }, { "name", sec->GetName() } }));
+			if (sec) rec->Set("secobj", new Dictionary({ { "type", sec->GetReflectionType()->GetName() }, { "name", sec->GetName() } }));
 			long long base = (long long)JsonEncode(rec).GetLength(), want = atoll(w[4].c_str());
 			params->Set("pad", String(std::string((size_t)std::max<long long>(0, want - base), 'x')));
 		}
@@ -829,6 +1056,16 @@ static void RunOp(const std::vector<std::string>& w, const std::string& line)
 		}
 		Sync();
 		printf("%s | %s\n", line.c_str(), PosStr().c_str());
+	} else if (op == "attach") {
+		/* exactly the synchronous part of NewClientHandlerInternal: the endpoint counts as connected, SyncClient has not started yet */
+		need(2);
+		int p = PeerIdx(w[1]);
+		if (!l_Conn[p]) {
+			l_Conn[p] = MkConn(p);
+			l_Ep[p]->AddClient(l_Conn[p]);
+		}
+		Sync();
+		printf("%s | %s\n", line.c_str(), PosStr().c_str());
 	} else if (op == "disc") {
 		need(2);
 		int p = PeerIdx(w[1]);
@@ -847,14 +1084,15 @@ static void RunOp(const std::vector<std::string>& w, const std::string& line)
 		FlushLog();
 		std::string path = FilePath(w[1]);
 		std::string orig = ReadFile(path);
-		size_t k = w[2][0] == '?' ? (size_t)(atoll(w[2].c_str() + 1) % (long long)(orig.size() + 1)) : (size_t)atoll(w[2].c_str());
-		if (k > orig.size()) k = orig.size();
+		size_t k = ResolveOffset(w[2], orig);
 		std::string vis = VisBits(p);
 		{
 			std::unique_lock<std::mutex> lock(l->*get(LogLockTag()));
 			(l->*get(CloseTag()))();
 		}
-		WriteFile(path, orig.substr(0, k) + UnHex(w[3]));
+		std::string damaged = orig.substr(0, k) + UnHex(w[3]);
+		WriteFile(path, damaged);
+		std::string garb = w[3] == "-" ? "-" : DescribeDamage(damaged, k);
 		std::string out = DoReplay(p, atoll(w[4].c_str()));
 		{
 			std::unique_lock<std::mutex> lock(l->*get(LogLockTag()));
@@ -863,8 +1101,8 @@ static void RunOp(const std::vector<std::string>& w, const std::string& line)
 			(l->*get(OpenTag()))();
 		}
 		l_PrevCur = (long long)ReadFile(LogDir() + "/current").size();
-		printf("probe %s %zu %s %s %s | %s %s %s\n", FileTok(path).c_str(), k, w[3].c_str(), w[4].c_str(), w[5].c_str(),
-			vis.c_str(), out.c_str(), PosStr().c_str());
+		printf("probe %s %zu %s %s %s | %s %s %s %s\n", FileTok(path).c_str(), k, w[3].c_str(), w[4].c_str(), w[5].c_str(),
+			vis.c_str(), out.c_str(), garb.c_str(), PosStr().c_str());
 	} else if (op == "cutall") {
 		need(3);
 		FlushLog();
@@ -876,6 +1114,27 @@ static void RunOp(const std::vector<std::string>& w, const std::string& line)
 			for (size_t k = 0; k <= sz; k++) {
 				std::string sub = "probe " + t + " " + std::to_string(k) + " - " + w[1] + " " + w[2];
 				RunOp(Words(sub), sub);
+			}
+		}
+	} else if (op == "flipall") {
+		/* flipall <now> <p> <stride> <phase>: every stride-th byte of every file replaced IN PLACE by each of a few other bytes (the
+		 * rest of the file stays): expands to probe lines that carry the whole changed suffix */
+		need(5);
+		FlushLog();
+		size_t stride = (size_t)std::max(1, atoi(w[3].c_str())), phase = (size_t)atoi(w[4].c_str());
+		std::vector<std::string> toks;
+		for (long long n : RotatedNames()) toks.push_back(std::to_string(n));
+		toks.push_back("cur");
+		for (auto& t : toks) {
+			std::string data = ReadFile(FilePath(t));
+			for (size_t k = phase % stride; k < data.size(); k += stride) {
+				for (char b : { '9', '0', '"' }) {
+					if (data[k] == b) continue;
+					std::string sfx = data.substr(k);
+					sfx[0] = b;
+					std::string sub = "probe " + t + " " + std::to_string(k) + " " + Hex(sfx) + " " + w[1] + " " + w[2];
+					RunOp(Words(sub), sub);
+				}
 			}
 		}
 	} else if (op == "rotate") {
@@ -936,8 +1195,7 @@ static void RunOp(const std::vector<std::string>& w, const std::string& line)
 		FlushLog();
 		std::string path = FilePath(w[1]);
 		std::string orig = ReadFile(path);
-		size_t k = w[2][0] == '?' ? (size_t)(atoll(w[2].c_str() + 1) % (long long)(orig.size() + 1)) : (size_t)atoll(w[2].c_str());
-		if (k > orig.size()) k = orig.size();
+		size_t k = ResolveOffset(w[2], orig);
 		bool isCur = FileTok(path) == "cur";
 		{
 			std::unique_lock<std::mutex> lock(l->*get(LogLockTag()));
@@ -1186,12 +1444,13 @@ int main(int argc, char **argv)
 	}
 	size_t nParts = std::min<size_t>(16, std::max<size_t>(1, cases.size() / 4));
 	std::vector<std::vector<std::string>> parts(nParts);
-	/* contiguous blocks, balanced by line count */
-	size_t total = lines.size(), acc = 0, pi = 0;
+	/* contiguous blocks, balanced by work: a cutall / flipall line expands to more than a thousand replays */
+	auto weight = [](const std::string& l) -> size_t { return l.rfind("cutall", 0) == 0 || l.rfind("flipall", 0) == 0 ? 1200 : 1; };
+	size_t total = 0, acc = 0, pi = 0;
+	for (auto& l : lines) total += weight(l);
 	for (auto& c : cases) {
 		if (acc >= (pi + 1) * total / nParts && pi + 1 < nParts) pi++;
-		for (auto& l : c) parts[pi].push_back(l);
-		acc += c.size();
+		for (auto& l : c) { parts[pi].push_back(l); acc += weight(l); }
 	}
 	std::vector<std::vector<std::string>> nonEmpty;
 	for (auto& p : parts) if (!p.empty()) nonEmpty.push_back(p);
